@@ -112,13 +112,14 @@ theorem reciprocal_1d (v : V3 α) (h : v.dot v ≠ 0) :
 /-- dual basis in two dimensions: `rᵢ · vⱼ = δᵢⱼ` -/
 theorem reciprocal_2d (v1 v2 : V3 α) (h : v1.norm2 * v2.norm2 - v1.dot v2 * v1.dot v2 ≠ 0) :
     ∃ r1 r2, latticeReciprocal [v1, v2] = some [r1, r2] ∧
-      r1.dot v1 = 1 ∧ r1.dot v2 = 0 ∧ r2.dot v1 = 0 ∧ r2.dot v2 = 1 := by
-  refine ⟨_, _, rfl, ?_, ?_, ?_, ?_⟩ <;>
+      r1.dot v1 = 1 ∧ r1.dot v2 = 0 ∧ r2.dot v1 = 0 ∧ r2.dot v2 = 1 ∧
+      (v1.cross v2).dot r1 = 0 ∧ (v1.cross v2).dot r2 = 0 := by
+  refine ⟨_, _, rfl, ?_, ?_, ?_, ?_, ?_, ?_⟩ <;>
   · show V3.dot _ _ = _
     generalize hd : v1.norm2 * v2.norm2 - v1.dot v2 * v1.dot v2 = d at h
-    simp only [V3.dot, V3.smul, V3.add, V3.norm2] at hd ⊢
+    simp only [V3.dot, V3.smul, V3.add, V3.norm2, V3.cross] at hd ⊢
     field_simp
-    first | linear_combination hd | linear_combination (0:α) * hd
+    first | linear_combination hd | linear_combination (0:α) * hd | ring
 
 /-- dual basis in three dimensions: `rᵢ · vⱼ = δᵢⱼ` -/
 theorem reciprocal_3d (v1 v2 v3 : V3 α) (h : v1.dot (v2.cross v3) ≠ 0) (h3 : (3 : α) ≠ 0) :
@@ -138,14 +139,17 @@ theorem reciprocal_3d (v1 v2 v3 : V3 α) (h : v1.dot (v2.cross v3) ≠ 0) (h3 : 
     first | linear_combination hd | linear_combination (0:α) * hd
 
 /-- one pair of planes `(p₁, n)`, `(p₂, ·)`: the base vector `a` carries the second plane onto the
-first: `n · (p₂ + a − p₁) = 0` (whichever orientation the first-listed reference has) -/
+first: `n · (p₂ + a − p₁) = 0` (whichever orientation the first-listed reference has), and is normal to the planes -/
 theorem squareBase_1d (p1 n1 p2 n2 : V3 α) (s1 s2 : Int)
     (hn : n1.dot n1 ≠ 0) (hd : (p1.sub p2).dot n1 ≠ 0) :
     ∃ a, squareBaseVectors [((p1, n1), s1), ((p2, n2), s2)] = some [a] ∧
-      n1.dot ((p2.add a).sub p1) = 0 := by
+      n1.dot ((p2.add a).sub p1) = 0 ∧ n1.cross a = V3.zero := by
   by_cases hs : (s1 == 1) = true
   all_goals
-    refine ⟨_, by simp [squareBaseVectors, squareReciprocal, latticeReciprocal, hs]; rfl, ?_⟩
+    refine ⟨_, by simp [squareBaseVectors, squareReciprocal, latticeReciprocal, hs]; rfl, ?_, ?_⟩
+    rotate_left
+    · simp only [V3.cross, V3.smul, V3.zero, V3.mk.injEq]
+      refine ⟨by ring, by ring, by ring⟩
     simp only [V3.dot, V3.smul, V3.sub, V3.add] at hn hd ⊢
     have hd' : (p1.x - p2.x) * -n1.x + (p1.y - p2.y) * -n1.y + (p1.z - p2.z) * -n1.z ≠ 0 := by
       intro h0; apply hd; linear_combination -h0
@@ -168,12 +172,15 @@ theorem dot_smul_left (c : α) (u v : V3 α) : (V3.smul c u).dot v = c * u.dot v
 theorem dot_comm' (u v : V3 α) : u.dot v = v.dot u := by simp only [V3.dot]; ring
 
 /-- **two pairs of planes**: the base vector of each pair carries its second plane onto its first and is parallel
-to the planes of the other pair (so the unit cell moved by `i·a + j·b` is the `(i, j)`-th cell of the grid of planes) -/
+to the planes of the other pair (so the unit cell moved by `i·a + j·b` is the `(i, j)`-th cell of the grid of planes);
+both lie in the plane of the two normals — they have no component along the axis of the infinite prism, along which a
+filling universe would otherwise slide -/
 theorem squareBase_2d (p1 n1 p2 n2 q1 m1 q2 m2 : V3 α) (s1 s2 t1 t2 : Int)
     (hd1 : (p1.sub p2).dot n1 ≠ 0) (hd2 : (q1.sub q2).dot m1 ≠ 0)
     (hnp : n1.norm2 * m1.norm2 - n1.dot m1 * n1.dot m1 ≠ 0) :
     ∃ a b, squareBaseVectors [((p1, n1), s1), ((p2, n2), s2), ((q1, m1), t1), ((q2, m2), t2)] = some [a, b] ∧
-      n1.dot ((p2.add a).sub p1) = 0 ∧ m1.dot a = 0 ∧ m1.dot ((q2.add b).sub q1) = 0 ∧ n1.dot b = 0 := by
+      n1.dot ((p2.add a).sub p1) = 0 ∧ m1.dot a = 0 ∧ m1.dot ((q2.add b).sub q1) = 0 ∧ n1.dot b = 0 ∧
+      (n1.cross m1).dot a = 0 ∧ (n1.cross m1).dot b = 0 := by
   -- oriented normals and distances
   have hn' : ∀ (n : V3 α) (s : Int) (x : V3 α), (orientN n s).dot x = (if s == 1 then -1 else 1) * n.dot x := by
     intro n s x; unfold orientN; split <;> simp only [V3.dot, V3.smul] <;> ring
@@ -202,8 +209,19 @@ theorem squareBase_2d (p1 n1 p2 n2 q1 m1 q2 m2 : V3 α) (s1 s2 t1 t2 : Int)
       simp only [V3.norm2, V3.dot, V3.smul]; ring
     rw [e]
     exact mul_ne_zero (mul_ne_zero (mul_ne_zero hc1ne hc1ne) (mul_ne_zero hc2ne hc2ne)) hnp'
-  obtain ⟨a, b, hab, ha1, ha2, hb1, hb2⟩ := reciprocal_2d (V3.smul c1 N1) (V3.smul c2 N2) hr
-  refine ⟨a, b, ?_, ?_, ?_, ?_, ?_⟩
+  obtain ⟨a, b, hab, ha1, ha2, hb1, hb2, hpa, hpb⟩ := reciprocal_2d (V3.smul c1 N1) (V3.smul c2 N2) hr
+  have hcross : ∀ x : V3 α, ((V3.smul c1 N1).cross (V3.smul c2 N2)).dot x = 0 → (n1.cross m1).dot x = 0 := by
+    intro x hx
+    have e : ((V3.smul c1 N1).cross (V3.smul c2 N2)).dot x = (c1 * c2) * (N1.cross N2).dot x := by
+      simp only [V3.cross, V3.dot, V3.smul]; ring
+    rw [e] at hx
+    have h0 : (N1.cross N2).dot x = 0 := (mul_eq_zero.mp hx).resolve_left (mul_ne_zero hc1ne hc2ne)
+    have e2 : (N1.cross N2).dot x = ((if s1 == 1 then (-1 : α) else 1) * (if t1 == 1 then (-1 : α) else 1)) * (n1.cross m1).dot x := by
+      rw [← hN1, ← hN2]; unfold orientN
+      split <;> split <;> simp only [V3.cross, V3.dot, V3.smul] <;> ring
+    rw [e2] at h0
+    exact (mul_eq_zero.mp h0).resolve_left (mul_ne_zero (hsgn s1) (hsgn t1))
+  refine ⟨a, b, ?_, ?_, ?_, ?_, ?_, hcross a hpa, hcross b hpb⟩
   · simp only [squareBaseVectors, List.length_cons, List.length_nil]
     rw [hrec]; simpa using hab
   · -- a · (c1 N1) = 1  ⇒  N1 · a = (p1 − p2) · N1
